@@ -38,6 +38,9 @@ SYSTEMS = [
     (-300, 100, -100, 50),  # asymmetric
     (-200, 200, -200, 200),  # exclusion = inclusion
     (-200, 100, -60, 100),  # exclusion touches one inclusion bound
+    (-200, 20, -60, 60),  # upper inclusion bound strictly inside the exclusion zone
+    (-20, 200, -60, 60),  # lower inclusion bound strictly inside the exclusion zone
+    (-20, 20, -60, 60),  # both inside: only 0 is usable
 ]
 
 
@@ -196,8 +199,85 @@ def e2_bfs(args) -> Acc:
     return acc
 
 
+# -- E2b: expiry-focused pass, no state merging ------------------------------------
+
+EXP_EVENTS = [("p", 3, "a", None, 50, 100), ("p", 2, "b", 20, None, None), ("p", 1, "c", -100, None, None),
+              ("t", 1.0), ("t", 30.0)]
+EXP_EVENTS_T = EXP_EVENTS + [("p", 3, "a", None, None, -50), ("t", 29.0)]
+
+
+def e2_expiry(args) -> Acc:
+    """Every event sequence up to the depth, starting with the given prefix; the real
+    object is carried along (deep-copied at branch points) and never merged with another
+    history, so state the reference does not know about (a cache, a watermark) cannot be
+    hidden by deduplication."""
+    import copy
+
+    tier, si, depth, prefix = args
+    acc = Acc()
+    sysb = SYSTEMS[si]
+    S = sb(*sysb)
+    events = EXP_EVENTS if tier == "quick" else EXP_EVENTS_T
+
+    def apply(m, now, ev):
+        if ev[0] == "p":
+            _, prio, src, pref, lo, hi = ev
+            m.calculate_target_power(IDS, prop(src, prio, pref, lo, hi, t=now), S)
+            return now
+        now += ev[1]
+        m.drop_old_proposals(now)
+        return now
+
+    def check(m, hist):
+        live, _ = ref.live_set(hist, MAX_AGE)
+        probe = copy.deepcopy(m)
+        t = probe.calculate_target_power(IDS, None, S, must_return_power=True)
+        target = None if t is None else t.as_watts()
+        acc.evaluations += 1
+        acc.clauses["target_depends_only_on_live_set"] += 1
+        viol = safety(sysb, target)
+        if live:
+            exp = target_of(live, sysb)
+            if target != exp:
+                viol.append(("target_depends_only_on_live_set", {"live": live, "after_history": target, "fresh": exp}))
+        elif target not in (None, 0.0):
+            viol.append(("expired_proposals_stop_counting", {"target": target}))
+        for clause, detail in viol:
+            acc.violation(Violation(clause, {"driver": "e2", "system": list(sysb), "history": [list(e) for e in hist]}, detail))
+        if len(live) >= 2 and sum(1 for e in hist if e[0] == "t") >= 2:
+            acc.nontrivial += 1
+
+    def rec(m, now, hist):
+        if len(hist) >= depth:
+            acc.traces += 1
+            return
+        for ev in events:
+            m2 = copy.deepcopy(m)
+            now2 = apply(m2, now, ev)
+            h2 = hist + (ev,)
+            acc.transitions += 1
+            check(m2, h2)
+            if now2 > 3 * MAX_AGE:
+                acc.traces += 1
+                continue  # everything has expired long ago; nothing new beyond this horizon
+            rec(m2, now2, h2)
+
+    m = Matryoshka(max_proposal_age=timedelta(seconds=MAX_AGE))
+    now = 0.0
+    for ev in prefix:
+        now = apply(m, now, ev)
+    rec(m, now, tuple(prefix))
+    acc.states = acc.transitions  # histories are the states here (no merging)
+    acc.outcome(f"e2-expiry sys{si}")
+    return acc
+
+
 def _dispatch(args):
-    return e3_shard(args[1:]) if args[0] == "e3" else e2_bfs(args[1:])
+    if args[0] == "e3":
+        return e3_shard(args[1:])
+    if args[0] == "e2x":
+        return e2_expiry(args[1:])
+    return e2_bfs(args[1:])
 
 
 def run(tier: str, seed: int, workers: int):
@@ -209,6 +289,11 @@ def run(tier: str, seed: int, workers: int):
             for p1 in prefs:
                 shards.append(("e3", tier, si, n, p1))
         shards.append(("e2", tier, si, 4 if tier == "quick" else 5, 3 if tier == "quick" else 4))
+    evs = EXP_EVENTS if tier == "quick" else EXP_EVENTS_T
+    for si in ((0,) if tier == "quick" else (0, 1)):
+        for e1 in evs:
+            for e2 in evs:
+                shards.append(("e2x", tier, si, 7 if tier == "quick" else 8, (e1, e2)))
     if seed:
         import random
 
@@ -220,7 +305,8 @@ def run(tier: str, seed: int, workers: int):
         "mutually incompatible bounds); non-trivial = >= 2 proposals whose bounds conflict.  E2: BFS over histories of "
         "propose/replace (actor x 6 variants) and clock advance + drop_old_proposals (30 s, 31 s; max age 60 s) to the stated "
         "depth, states deduplicated on the live proposal set with ages; in every state the target is compared with a fresh "
-        "instance fed the live set in every insertion order",
+        "instance fed the live set in every insertion order.  E2b (expiry): every sequence of {three fixed proposals, +1 s, +30 s} "
+        "to depth 7 (quick) / 8 with two more events (thorough) WITHOUT state merging, target compared with a fresh instance after every step",
         "assumptions": [
             "decided on the stated value menus",
             "expiry is observed through drop_old_proposals(now), as the power manager calls it",
